@@ -218,6 +218,7 @@ func runC19(ctx *Ctx) {
 	rep.Rule = "frames built from {service} x {host family: exact, sub-domain, suffix/prefix look-alike, userinfo, name in path/query, scheme-relative, relative, upper-case, port} x {id/path/query shapes} x {iframe, object data, object param, twitter blockquote}, probed on the extractors and distilled inside an article; distinct by (service, family, tag kind, path shape); non-trivial = host is a look-alike of an allow-listed one or an embed was recognised"
 	corrRoot := newCorr("rootdomain")
 	corrEmb := newCorr("embed")
+	corrMedia := newCorr("mediarender")
 	type job struct {
 		c   frameCase
 		src string
@@ -287,6 +288,8 @@ func runC19(ctx *Ctx) {
 			decision = dec
 			corrEmb.add(frameAtoms(f), fmt.Sprintf("tw=%s vm=%s yt=%s dec=%s", fmtProbe(pr["twitter"]), fmtProbe(pr["vimeo"]), fmtProbe(pr["youtube"]), dec), replay)
 		}
+		// --- the rendering of the placeholders (Model/MediaRender.lean)
+		addMediaRenderCases(corrMedia, rep, j.src, pageURL, replay)
 		// --- oracle on the distilled page
 		res, err := distiller.Apply(d.Root, &distiller.Options{OriginalURL: pageURL, SkipPagination: true})
 		if err != nil {
@@ -337,4 +340,5 @@ func runC19(ctx *Ctx) {
 	}
 	corrRoot.run(ctx)
 	corrEmb.run(ctx)
+	corrMedia.run(ctx)
 }
